@@ -254,6 +254,18 @@ func samePayload(a, b any) bool {
 	return reflect.DeepEqual(a, b)
 }
 
+// fbArgIs: the fallback received the prep value. For function-style nodes the value may arrive
+// in the Result wrapper the phases are threaded through (as the batch path hands items over).
+func fbArgIs(in, prep any, l *LeafSpec) bool {
+	if samePayload(in, prep) {
+		return true
+	}
+	if r, isRes := in.(flyt.Result); isRes && l.Kind == KFunc && !r.IsError() {
+		return samePayload(r.Value(), prep)
+	}
+	return false
+}
+
 type PtrErr struct{ Tag string }
 
 func (e *PtrErr) Error() string { return "ptrerr:" + e.Tag }
